@@ -17,7 +17,7 @@ def run(tier):
         R = Resolver(t['tree'])
         vg = ValueGen(t['tree'], rng)
         jobs = []
-        for cls, body in classes_of(t['tree']):
+        for cls, body in all_classes_of(t['tree']):
             for k in range(2 if quick else 4):
                 try:
                     v = vg.obj(cls, body)
